@@ -543,6 +543,14 @@ func SetValue(dest, v reflect.Value) {
 	dest.Set(v)
 }
 
+// convertTo returns an addressable value of type typ holding the decoded value in,
+// converted like a struct field would be; a null (nil) stays the zero value of typ.
+func convertTo(typ reflect.Type, in interface{}) reflect.Value {
+	v := reflect.New(typ).Elem()
+	SetValue(v, EnsureRawValue(in))
+	return v
+}
+
 func AddrEqual(x, y interface{}) bool {
 	if x == nil || y == nil {
 		return x == y
